@@ -135,3 +135,190 @@ example : (PopulateRename.populate [("a", "b"), ("b", "b"), ("c", "a"), ("a", "b
 example : (PopulateRename.populate [("a", "b"), ("b", "b"), ("c", "a"), ("a", "b")]).ids = ["a", "b", "c"] := by decide
 
 end Autog
+
+namespace Autog
+
+/-! ## the whole result: all components -/
+
+theorem collect_nodes_stat (cfg : Cfg) : ∀ (gs : List G) (shift : Rat) (ci : Nat),
+    (collect cfg shift ci gs).nodes.map ONode.stat =
+      gs.flatMap fun g => ((List.range g.nodes.size).filter fun i => !(g.node i).virt || cfg.virt).map fun i => (g.node i).stat
+  | [], _, _ => rfl
+  | g :: gs, shift, ci => by
+    simp only [collect, List.map_append, List.flatMap_cons, collect_stat, collect_nodes_stat cfg gs]
+
+/-- element-wise success of a `mapM` -/
+inductive MapOK {α β} (f : α → M β) : List α → List β → Prop
+  | nil : MapOK f [] []
+  | cons {a b l r} : f a = .ok b → MapOK f l r → MapOK f (a :: l) (b :: r)
+
+theorem mapM_forall2 {α β} (f : α → M β) : ∀ (l : List α) (r : List β), l.mapM f = .ok r → MapOK f l r
+  | [], r, h => by
+    simp only [List.mapM_nil, pure, Except.pure, Except.ok.injEq] at h; subst h; exact .nil
+  | a :: l, r, h => by
+    simp only [List.mapM_cons, bind, Except.bind] at h
+    cases ha : f a with
+    | error e => rw [ha] at h; cases h
+    | ok b =>
+      rw [ha] at h
+      simp only at h
+      cases hl : l.mapM f with
+      | error e => rw [hl] at h; cases h
+      | ok bs =>
+        rw [hl] at h
+        simp only [pure, Except.pure, Except.ok.injEq] at h
+        subst h
+        exact .cons ha (mapM_forall2 f l bs hl)
+
+/-- END TO END (nodes, all components, default output): the composed model of `autog.Layout` returns, component after component
+    in the order `preProcess` produced them, exactly the nodes of each component — ids, widths, heights — and no helper node -/
+theorem C02_layoutModel_nodes (cfg : Cfg) (hv : cfg.virt = false) (es : InEdges) (comps : List (G × List Nat)) (out : Out)
+    (hpre : preProcess cfg es = .ok comps)
+    (hreal : ∀ c ∈ comps, ∀ i, i < c.1.nodes.size → (c.1.node i).virt = false)
+    (h : layoutModel (fun g => (orderWMedianP 24 g).map (·.1)) cfg es = .ok out) :
+    out.nodes.map ONode.stat = comps.flatMap fun c => (List.range c.1.nodes.size).map fun i => (c.1.node i).stat := by
+  unfold layoutModel at h
+  simp only [hpre, bind, Except.bind] at h
+  cases hm : comps.mapM (layoutComponent (fun g => (orderWMedianP 24 g).map (·.1)) cfg) with
+  | error e => rw [hm] at h; cases h
+  | ok finals =>
+    rw [hm] at h
+    simp only [pure, Except.pure, Except.ok.injEq] at h
+    subst h
+    rw [collect_nodes_stat]
+    have hf := mapM_forall2 _ comps finals hm
+    clear hm hpre
+    induction hf with
+    | nil => rfl
+    | @cons c gf cs gfs hc _ ih =>
+      simp only [List.flatMap_cons]
+      rw [ih (fun c' hc' => hreal c' (List.mem_cons_of_mem _ hc'))]
+      congr 1
+      have := C02_public_nodes cfg hv 0 0 c gf (hreal c (List.mem_cons_self ..)) hc
+      rw [collect_stat] at this
+      exact this
+
+end Autog
+
+namespace Autog
+
+/-! ### the components handed to the pipeline hold real nodes only -/
+
+def AllReal (g : G) : Prop := ∀ i, (g.node i).virt = false
+
+theorem allReal_of_mem (g : G) (h : ∀ nd ∈ g.nodes.toList, nd.virt = false) : AllReal g := by
+  intro i
+  simp only [G.node, Array.getD_eq_getD_getElem?]
+  cases hi : g.nodes[i]? with
+  | none => simp [default, instInhabitedNode.default]
+  | some nd =>
+    simp only [Option.getD_some]
+    exact h nd (by
+      have := Array.mem_of_getElem? hi
+      simpa using this)
+
+theorem allReal_populate (cfg : Cfg) (es : InEdges) : AllReal (applySizes cfg (populate es)) := by
+  apply allReal_of_mem
+  intro nd hnd
+  simp only [applySizes, populate, Array.toList_map, List.mem_map] at hnd
+  obtain ⟨a, ha, rfl⟩ := hnd
+  obtain ⟨p, _, rfl⟩ := ha
+  rfl
+
+theorem allReal_subgraph (g : G) (h : AllReal g) (ns es : List Nat) : AllReal (subgraph g ns es) := by
+  apply allReal_of_mem
+  intro nd hnd
+  simp only [subgraph, List.mem_map] at hnd
+  obtain ⟨n, _, rfl⟩ := hnd
+  exact h n
+
+theorem allReal_modNode (g : G) (h : AllReal g) (i : Nat) (f : Node → Node) (hf : ∀ nd, (f nd).virt = nd.virt) :
+    AllReal (g.modNode i f) := by
+  intro j
+  rw [G.node_modNode]
+  split
+  · rw [hf]; exact h j
+  · exact h j
+
+theorem allReal_componentsLoop (g : G) (h : AllReal g) : ∀ (ns visited : List Nat) (out r : List G),
+    (∀ c ∈ out, AllReal c) → componentsLoop g ns visited out = .ok r → ∀ c ∈ r, AllReal c
+  | [], _, out, r, ho, hr => by
+    simp only [componentsLoop, pure, Except.pure, Except.ok.injEq] at hr; subst hr; exact ho
+  | n :: rest, visited, out, r, ho, hr => by
+    unfold componentsLoop at hr
+    split at hr
+    · exact allReal_componentsLoop g h rest visited out r ho hr
+    · simp only [bind, Except.bind] at hr
+      split at hr
+      · cases hr
+      · rename_i w _
+        refine allReal_componentsLoop g h rest _ _ r ?_ hr
+        intro c hc
+        rcases List.mem_append.1 hc with h1 | h1
+        · exact ho c h1
+        · have : c = subgraph g w.1 w.2 := by simpa using h1
+          subst this; exact allReal_subgraph g h _ _
+
+theorem allReal_components (g : G) (h : AllReal g) (cs : List G) (hc : components g = .ok cs) : ∀ c ∈ cs, AllReal c := by
+  unfold components at hc
+  simp only [bind, Except.bind, pure, Except.pure] at hc
+  split at hc
+  · cases hc
+  · split at hc
+    · cases hc
+    · rename_i w _
+      split at hc
+      · simp only [Except.ok.injEq] at hc; subst hc
+        intro c hcm
+        have : c = g := by simpa using hcm
+        subst this; exact h
+      · refine allReal_componentsLoop g h _ _ _ cs ?_ hc
+        intro c hcm
+        have : c = subgraph g w.1 w.2 := by simpa using hcm
+        subst this; exact allReal_subgraph g h _ _
+
+theorem allReal_ignoreSelfLoops (g : G) (h : AllReal g) : AllReal (ignoreSelfLoops g).1 := by
+  unfold ignoreSelfLoops
+  simp only
+  have : ∀ (l : List Nat) (g0 : G), AllReal g0 → AllReal (l.foldl (fun g e =>
+      let v := (g.edge e).src
+      let g := g.modNode v fun n => { n with outs := G.removeE n.outs e }
+      let g := g.modNode v fun n => { n with ins := G.removeE n.ins e }
+      { g with elist := G.removeE g.elist e }) g0) := by
+    intro l
+    induction l with
+    | nil => intro g0 h0; exact h0
+    | cons e l ih =>
+      intro g0 h0
+      simp only [List.foldl_cons]
+      apply ih
+      have h1 := allReal_modNode g0 h0 (g0.edge e).src (fun n => { n with outs := G.removeE n.outs e }) (fun _ => rfl)
+      have h2 := allReal_modNode _ h1 (g0.edge e).src (fun n => { n with ins := G.removeE n.ins e }) (fun _ => rfl)
+      exact h2
+  exact this _ g h
+
+/-- the hypothesis `hreal` of `C02_layoutModel_nodes` always holds for what `preProcess` returns -/
+theorem preProcess_real (cfg : Cfg) (es : InEdges) (comps : List (G × List Nat)) (h : preProcess cfg es = .ok comps) :
+    ∀ c ∈ comps, ∀ i, i < c.1.nodes.size → (c.1.node i).virt = false := by
+  unfold preProcess at h
+  simp only [bind, Except.bind] at h
+  split at h
+  · cases h
+  · rename_i cs hcs
+    simp only [pure, Except.pure, Except.ok.injEq] at h
+    subst h
+    intro c hc i _
+    obtain ⟨g, hg, rfl⟩ := List.mem_map.1 hc
+    exact allReal_ignoreSelfLoops g (allReal_components _ (allReal_populate cfg es) cs hcs g hg) i
+
+/-- END TO END, no hypothesis left but "the model returns": the nodes of `layoutModel`'s result are, component after component, the
+    nodes `preProcess` made out of the caller's edge list and size options -/
+theorem C02_layoutModel_nodes_total (cfg : Cfg) (hv : cfg.virt = false) (es : InEdges) (out : Out)
+    (h : layoutModel (fun g => (orderWMedianP 24 g).map (·.1)) cfg es = .ok out) :
+    ∃ comps, preProcess cfg es = .ok comps ∧
+      out.nodes.map ONode.stat = comps.flatMap fun c => (List.range c.1.nodes.size).map fun i => (c.1.node i).stat := by
+  cases hp : preProcess cfg es with
+  | error e => unfold layoutModel at h; simp [hp, bind, Except.bind] at h
+  | ok comps => exact ⟨comps, rfl, C02_layoutModel_nodes cfg hv es comps out hp (preProcess_real cfg es comps hp) h⟩
+
+end Autog
